@@ -402,6 +402,10 @@ class Executor:
                 r = a.z == b.z
             elif isinstance(a, V) and isinstance(b, V) and a.ty == BOOL and b.ty == BOOL:
                 r = a.z == b.z
+            elif isinstance(a, V) and isinstance(b, V) and isinstance(a.ty, TOpt) and a.ty.inner == BOOL and b.ty == BOOL:
+                r = z3.And(a.ty.sort().is_some(a.z), a.ty.sort().v(a.z) == b.z)     # `x is True/False` on Optional[bool]
+            elif isinstance(a, V) and isinstance(b, V) and isinstance(b.ty, TOpt) and b.ty.inner == BOOL and a.ty == BOOL:
+                r = z3.And(b.ty.sort().is_some(b.z), b.ty.sort().v(b.z) == a.z)
             elif isinstance(a, PyObj) and isinstance(b, PyObj):
                 r = z3.BoolVal(a.o is b.o)
             elif isinstance(a, V) and isinstance(b, V) and isinstance(a.ty, TOpt) and isinstance(a.ty.inner, TRef):
@@ -1416,15 +1420,31 @@ def contract_ast(fn):
             raise
         # a lambda in the middle of a multi-line call: cut the expression out of the text
         tree = None
+        # the body of the lambda may continue on the following lines: take up to 8 more lines from the file
+        try:
+            import linecache
+            fl = fn.__code__.co_firstlineno
+            more = [linecache.getline(fn.__code__.co_filename, fl + len(lines) + d) for d in range(8)]
+            src = src + "".join(more)
+        except Exception:
+            pass
         at = src.find("lambda")
         while at >= 0 and tree is None:
             text = src[at:]
-            for n in range(len(text), 6, -1):
+            want_args = list(fn.__code__.co_varnames[:fn.__code__.co_argcount])
+            for n in range(8, len(text) + 1):
                 try:
-                    cand = ast.parse(text[:n].strip(), mode="eval")
+                    cand = ast.parse("(" + text[:n].strip() + "\n)", mode="eval")
                 except SyntaxError:
                     continue
-                if isinstance(cand.body, ast.Lambda):
+                if isinstance(cand.body, ast.Lambda) and [a.arg for a in cand.body.args.args] == want_args:
+                    try:
+                        code = compile(ast.Expression(body=cand.body), "<x>", "eval").co_consts[0]
+                        fc = fn.__code__
+                        if (code.co_code, code.co_names, code.co_consts) != (fc.co_code, fc.co_names, fc.co_consts):
+                            continue          # a prefix that happens to parse: keep extending
+                    except Exception:
+                        continue
                     tree = ast.Module(body=[ast.Expr(value=cand.body)], type_ignores=[])
                     for nd in ast.walk(tree):
                         if hasattr(nd, "lineno"):
